@@ -170,6 +170,10 @@ func lifeJobs(tier string) []*Job {
 	for bc := 0; bc <= 1; bc++ {
 		jobs = append(jobs, fmk("H_life_w", P("L", L, "bc", bc)))
 	}
+	// Reset followed by a change of block size and an input larger than the smaller block size
+	for _, p := range [][2]int{{7, 4}, {4, 5}, {5, 4}, {4, 4}} {
+		jobs = append(jobs, fmk("H_life_w2", P("bs1", p[0], "bs2", p[1], "n", 70000, "period", -1150)))
+	}
 	for i, t := range frameTemplates(tier) {
 		if t["n"] > 40 || (tier != "thorough" && i%3 != 0) {
 			continue
@@ -254,9 +258,10 @@ func init() {
 			if tier == "thorough" {
 				L = 5
 			}
-			return []string{fmt.Sprintf("every sequence of %d calls; Writer alphabet {Apply(toggle block checksum), Write(2 symbolic bytes), ReadFrom(1 byte), Flush, Close, Reset(new sink), Reset(same sink)}; Reader alphabet {Read(3), Read(>= block), Read(empty buffer), WriteTo, Size, Reset(new source)} over a valid frame followed by 0/3/8 trailing bytes; opcodes chosen symbolically, compared after every call with the reference model of the statement", L)}
+			return []string{fmt.Sprintf("every sequence of %d calls; Writer alphabet {Apply(toggle block checksum), Write(2 symbolic bytes), ReadFrom(1 byte), Flush, Close, Reset(new sink), Reset(same sink)}; Reader alphabet {Read(3), Read(>= block), Read(empty buffer), WriteTo, Size, Reset(new source)} over a valid frame followed by 0/3/8 trailing bytes; opcodes chosen symbolically, compared after every call with the reference model of the statement", L),
+				"Reset scenarios: {nothing, Write, Flush, ReadFrom} x {closed, not closed} on a Writer with block size A, then Reset, Apply(BlockSizeOption(B)), a 70000-byte input and Close, for (A,B) in {(4M,64K),(64K,256K),(256K,64K),(64K,64K)}: output must equal a brand-new Writer's and be a valid frame with block size B"}
 		}, Outside: []string{"concurrent objects; longer sequences; options other than block checksum in Apply"}, Assumptions: append([]string{"after a rejected Apply (options after the first write) the object may be failed: the model then only requires that calls return"}, frameAssumptions...),
-		Filter: func(id string) bool { return hasPrefix(id, "w-") || hasPrefix(id, "r-") || hasPrefix(id, "no-panic") || hasPrefix(id, "unwind") }}
+		Filter: func(id string) bool { return hasPrefix(id, "w-") || hasPrefix(id, "w2-") || hasPrefix(id, "r-") || hasPrefix(id, "no-panic") || hasPrefix(id, "unwind") }}
 	checkDefs["C18"] = &CheckDef{Property: "C18", Jobs: creaderJobs,
 		Bounds: func(tier string) []string {
 			return []string{"sources of 0..5 symbolic bytes and 40/70-byte compressible inputs, options block size x block checksum x content checksum x content size x level; the first 3 (thorough 4) Read calls use a buffer size chosen symbolically from {0,1,3,6,7,8,40,70000}, then 64-byte buffers until the end; source fragmentation 4 modes; source failing at a symbolic call index"}
